@@ -244,22 +244,29 @@ Section McuBootSound.
         * apply rd_end_cons. exact He.
   Qed.
 
-  (* _read_data: the value is the first `len` bytes of what the reads delivered, in order; with cmd_exception the call
-     only returns when the final response said SUCCESS and at least `len` bytes arrived *)
+  (* _read_data: the value is the first `len` bytes of what the reads delivered, in order; the call only leaves status
+     SUCCESS when the final response said SUCCESS and at least `len` bytes arrived; with cmd_exception it only returns then *)
   Lemma read_data_sound fuel tag len s v s' :
     read_data E I ce fuel tag len s = (ROk v, s') ->
     mb_mps E s' = mb_mps E s /\
-    exists its e_end rs, ireads I (mb_env E s) e_end its /\ v = firstnN len (datas its) /\ rd_end tag e_end its rs s' /\
-      (ce = true -> mb_status E s' = SC_SUCCESS /\ len <= nlen (datas its)).
+    exists its e_end rs s1, ireads I (mb_env E s) e_end its /\ v = firstnN len (datas its) /\ rd_end tag e_end its rs s1 /\
+      mb_env E s' = mb_env E s1 /\
+      (mb_status E s' = SC_SUCCESS -> mb_status E s1 = SC_SUCCESS /\ len <= nlen (datas its)) /\
+      (ce = true -> mb_status E s' = SC_SUCCESS).
   Proof.
     unfold read_data, mbind. destruct (read_data_loop E I tag fuel [] s) as [[[data rs]|x] s1] eqn:L; [|discriminate].
     apply read_data_loop_sound in L. destruct L as (Hm & its & e_end & Hr & Hd & He).
     unfold get_status. cbn [fst snd]. simpl in Hd. subst data.
-    destruct (((nlen (datas its) <? len) || negb (mb_status E s1 =? SC_SUCCESS)) && ce) eqn:C; [discriminate|].
-    unfold mret. intros H. injection H as <- <-. split; [exact Hm|].
-    exists its, e_end, rs. split; [exact Hr|]. split; [reflexivity|]. split; [exact He|].
-    intros ->. rewrite andb_true_r in C. apply orb_false_iff in C. destruct C as [C1 C2].
-    apply negb_false_iff, N.eqb_eq in C2. apply N.ltb_ge in C1. split; assumption.
+    destruct ((nlen (datas its) <? len) || negb (mb_status E s1 =? SC_SUCCESS)) eqn:C.
+    - unfold put_status. destruct ce.
+      + discriminate.
+      + unfold mret. intros H. injection H as <- <-. split; [exact Hm|].
+        exists its, e_end, rs, s1. split; [exact Hr|]. split; [reflexivity|]. split; [exact He|]. split; [reflexivity|].
+        split; [|discriminate]. cbn [set_status mb_status]. intros Hs. exfalso.
+        destruct (mb_status E s1 =? SC_SUCCESS) eqn:E1; [discriminate|]. apply N.eqb_neq in E1. contradiction.
+    - unfold mret. intros H. injection H as <- <-. split; [exact Hm|].
+      apply orb_false_iff in C. destruct C as [C1 C2]. apply negb_false_iff, N.eqb_eq in C2. apply N.ltb_ge in C1.
+      exists its, e_end, rs, s1. split; [exact Hr|]. split; [reflexivity|]. split; [exact He|]. split; [reflexivity|]. auto.
   Qed.
 
   (* _process_cmd: the response object returned is the one the interface delivered (or NoResponse after a time-out),
@@ -307,29 +314,31 @@ Section McuBootSound.
   Qed.
 
   (* SUCCESS_SOUND for every "command, typed response, incoming data phase" call (read_memory, flash_read_resource,
-     kp_read_key_store, fuse_read): a returned byte string is backed by the reads of the protocol interface *)
+     kp_read_key_store, fuse_read): a returned byte string is backed by the reads of the protocol interface; when
+     status_code is SUCCESS (always, with cmd_exception) it has exactly the announced length *)
   Lemma cmd_data_in_sound fuel p cls s v s' :
     cmd_data_in E I ce fuel p cls s = (ROk (AVBytes v), s') ->
-    exists b e0 rs e1 its e_end rsf,
+    exists b e0 rs e1 its e_end rsf s1,
       pkt_bytes p = ROk b /\ i_write_command I b (mb_env E s) = (ROk tt, e0) /\ i_read I e0 = (ROk (RxResp rs), e1) /\
       r_status rs = SC_SUCCESS /\ r_cls rs = cls /\
-      ireads I e1 e_end its /\ v = firstnN (r_second rs) (datas its) /\ rd_end (pkt_tag p) e_end its rsf s' /\
+      ireads I e1 e_end its /\ v = firstnN (r_second rs) (datas its) /\ rd_end (pkt_tag p) e_end its rsf s1 /\
+      mb_env E s' = mb_env E s1 /\
       (mb_status E s' = SC_SUCCESS ->
-         e_end = mb_env E s' /\ last_resp its = Some rsf /\ r_cls rsf = 1 /\ r_second rsf = pkt_tag p /\ r_status rsf = SC_SUCCESS) /\
-      (ce = true -> mb_status E s' = SC_SUCCESS /\ nlen v = r_second rs).
+         e_end = mb_env E s' /\ last_resp its = Some rsf /\ r_cls rsf = 1 /\ r_second rsf = pkt_tag p /\ r_status rsf = SC_SUCCESS /\
+         nlen v = r_second rs) /\
+      (ce = true -> mb_status E s' = SC_SUCCESS).
   Proof.
-    unfold cmd_data_in, mbind. destruct (process_cmd E I ce p s) as [[rs|x] s1] eqn:P; [|discriminate].
+    unfold cmd_data_in, mbind. destruct (process_cmd E I ce p s) as [[rs|x] s0] eqn:P; [|discriminate].
     apply process_cmd_sound in P. destruct P as (Hm & Hst & Hce & Hw).
     unfold is_success. destruct (r_status rs =? SC_SUCCESS) eqn:Es; [|discriminate]. apply N.eqb_eq in Es.
     destruct (r_cls rs =? cls) eqn:Ec; [|discriminate]. apply N.eqb_eq in Ec.
-    destruct (read_data E I ce fuel (pkt_tag p) (r_second rs) s1) as [[d|x] s2] eqn:R; [|discriminate].
+    destruct (read_data E I ce fuel (pkt_tag p) (r_second rs) s0) as [[d|x] s2] eqn:R; [|discriminate].
     unfold mret. intros H. injection H as <- <-.
-    apply read_data_sound in R. destruct R as (Hm2 & its & e_end & rsf & Hr & Hv & He & Hc).
-    destruct Hw as [(b & e0 & Hb & Hw & Hrd)|Hno].
-    - exists b, e0, rs, (mb_env E s1), its, e_end, rsf. repeat (split; [assumption|]). split.
-      + intros Hs. eapply rd_end_success; eauto.
-      + intros Ht. destruct (Hc Ht) as [H1 H2]. split; [exact H1|]. subst d. apply nlen_firstnN. exact H2.
-    - subst rs. discriminate.
+    apply read_data_sound in R. destruct R as (Hm2 & its & e_end & rsf & s1 & Hr & Hv & He & Hen & Hc & Hct).
+    destruct Hw as [(b & e0 & Hb & Hw & Hrd)|Hno]; [|subst rs; discriminate].
+    exists b, e0, rs, (mb_env E s0), its, e_end, rsf, s1. repeat (split; [assumption|]). split; [|exact Hct].
+    intros Hs. destruct (Hc Hs) as [H1 H2]. destruct (rd_end_success _ _ _ _ _ He H1) as (G1 & G2 & G3 & G4 & G5).
+    rewrite Hen. repeat (split; [assumption|]). subst d. apply nlen_firstnN. exact H2.
   Qed.
 
   (* get_property: the values returned are those of the response the interface delivered *)
@@ -725,36 +734,33 @@ Section SerialSuccess.
       eaten D e0 e1 wr /\ frame_wire FP_CMD pr wr /\ parse_cmd_response pr = ROk rs /\ r_status rs = SC_SUCCESS /\ r_cls rs = cls /\
       eaten D e1 (mb_env _ s') bs /\ swire its bs /\ v = firstnN (r_second rs) (datas its) /\
       last_resp its = Some rsf /\ r_cls rsf = 1 /\ r_second rsf = pkt_tag p /\ r_status rsf = SC_SUCCESS /\
-      (ce = true -> nlen v = r_second rs).
+      nlen v = r_second rs.
   Proof.
     intros H Hs. apply cmd_data_in_sound in H.
-    destruct H as (b & e0 & rs & e1 & its & e_end & rsf & Hb & Hw & Hr & Hst & Hcl & Hits & Hv & _ & Hend & Hce).
-    destruct (Hend Hs) as (-> & Hl & Hc1 & Hc2 & Hc3).
+    destruct H as (b & e0 & rs & e1 & its & e_end & rsf & s1 & Hb & Hw & Hr & Hst & Hcl & Hits & Hv & _ & _ & Hend & _).
+    destruct (Hend Hs) as (-> & Hl & Hc1 & Hc2 & Hc3 & Hn).
     cbn [i_read i_write_command serial_iface] in Hr, Hw.
     apply s_read_sound in Hr. destruct Hr as (zs & hdr & ft & lenb & crcb & pr & He & Hz & Hh & Hab & Hp & Hl2 & Hc & Hvv).
     destruct (ft =? FP_CMD) eqn:EF; [|discriminate]. apply N.eqb_eq in EF. subst ft.
     destruct Hvv as (r0 & Hpr & Hrr). injection Hrr as <-.
     apply ireads_serial_wire in Hits. destruct Hits as (bs & Hbs & Hsw).
     exists b, e0, e1, rs, pr, (zs ++ hdr ++ lenb ++ crcb ++ pr), its, bs, rsf.
-    repeat (split; [first [assumption | exists zs, hdr, lenb, crcb; auto 10]|]).
-    intros Ht. apply Hce in Ht. tauto.
+    repeat (split; [first [assumption | exists zs, hdr, lenb, crcb; auto 10]|]). exact Hn.
   Qed.
 End SerialSuccess.
 
-(* the full-strength statement "success => complete" is FALSE with cmd_exception = False (finding C10-F1): the device
-   announces 20 bytes, one DATA frame is lost, the final response says SUCCESS *)
+(* the former finding C10-F1, now repaired: the device announces 20 bytes, one DATA frame is lost, the final response
+   says SUCCESS -- the call no longer leaves status SUCCESS (and raises with cmd_exception) *)
 Definition f1_stream : list N :=
   [90; 161; 90; 164; 12; 0; 27; 108; 163; 0; 0; 2; 0; 0; 0; 0; 20; 0; 0; 0; 90; 165; 8; 0; 116; 49; 0; 1; 2; 3; 4; 5; 6; 7;
    90; 165; 4; 0; 166; 200; 16; 17; 18; 19; 90; 164; 12; 0; 14; 35; 160; 0; 0; 2; 0; 0; 0; 0; 3; 0; 0; 0].
 Definition f1_run (ce : bool) :=
   read_memory (senv unit) (serial_iface unit null_recv) ce 100 4096 20 0 false
               (mkMbs (senv unit) SC_SUCCESS (Some 8) (mkSenv unit tt f1_stream [] [])).
-Lemma partial_success_witness :
-  exists v s', f1_run false = (ROk (AVBytes v), s') /\ mb_status _ s' = SC_SUCCESS /\ nlen v = 12 /\ se_in unit (mb_env _ s') = [].
-Proof. eexists. eexists. vm_compute. repeat split. Qed.
-Lemma partial_success_raises_with_cmd_exception :
-  exists s', f1_run true = (RExn (XCmd SC_SUCCESS), s').
-Proof. eexists. vm_compute. reflexivity. Qed.
+Lemma lost_frame_reports_failure :
+  (exists v s', f1_run false = (ROk (AVBytes v), s') /\ mb_status _ s' = SC_FAIL /\ nlen v = 12) /\
+  (exists s', f1_run true = (RExn (XCmd SC_FAIL), s')).
+Proof. split; [eexists; eexists; vm_compute; repeat split|eexists; vm_compute; reflexivity]. Qed.
 
 (* ------------------------------------------------------------------ HID reports *)
 Section HidLemmas.
@@ -768,15 +774,37 @@ Section HidLemmas.
     rewrite H4. cbn [nth skipn]. rewrite le16_cons. cbn [app skipn firstn].
     change [nlen p mod 256; (nlen p / 256) mod 256] with (le16 (nlen p)). rewrite le_dec_le16 by exact Hl.
     destruct (nlen p =? 0) eqn:E; [apply N.eqb_eq, nlen_0 in E; contradiction|].
+    replace (nlen (rid :: 0 :: nlen p mod 256 :: (nlen p / 256) mod 256 :: p) <? 4 + nlen p) with false
+      by (symmetry; apply N.ltb_ge; rewrite !nlen_cons; lia).
     replace (firstnN (nlen p) p) with p.
     - destruct (rid =? RID_CMD_IN); reflexivity.
     - pose proof (firstnN_app_exact p []) as F. rewrite app_nil_r in F. now rewrite F.
   Qed.
 End HidLemmas.
-(* D24 / finding C10-F2: a report that announces 8 bytes and delivers 3 is accepted *)
-Lemma short_report_accepted :
-  h_parse_frame unit [RID_DATA_IN; 0; 8; 0; 97; 98; 99] (mkHenv unit tt [] [] []) = (ROk (RxData [97; 98; 99]), mkHenv unit tt [] [] []).
+(* D24 (former finding C10-F2), repaired: a report that announces 8 bytes and delivers 3 is a connection error *)
+Lemma short_report_rejected_example :
+  h_parse_frame unit [RID_DATA_IN; 0; 8; 0; 97; 98; 99] (mkHenv unit tt [] [] []) = (RExn XConn, mkHenv unit tt [] [] []).
 Proof. reflexivity. Qed.
+
+(* every report the HID protocol accepts is complete: at least 4 + plen bytes long, and the payload handed on has exactly
+   the announced length plen > 0 *)
+Lemma h_parse_frame_sound D raw (e : henv D) v e' : h_parse_frame D raw e = (ROk v, e') ->
+  e' = e /\ 4 + le_dec (firstn 2 (skipn 2 raw)) <= nlen raw /\ 0 < le_dec (firstn 2 (skipn 2 raw)) /\
+  let p := firstnN (le_dec (firstn 2 (skipn 2 raw))) (skipn 4 raw) in
+  nlen p = le_dec (firstn 2 (skipn 2 raw)) /\
+  (if nth 0 raw 0 =? RID_CMD_IN then exists r, parse_cmd_response p = ROk r /\ v = RxResp r else v = RxData p).
+Proof.
+  unfold h_parse_frame. destruct (nlen raw <? 4) eqn:E4; [discriminate|].
+  set (plen := le_dec (firstn 2 (skipn 2 raw))).
+  destruct (plen =? 0) eqn:E0; [discriminate|]. destruct (nlen raw <? 4 + plen) eqn:EL; [discriminate|].
+  apply N.ltb_ge in E4, EL. apply N.eqb_neq in E0. intros H.
+  assert (Hn : nlen (firstnN plen (skipn 4 raw)) = plen).
+  { apply nlen_firstnN. unfold nlen in *. rewrite skipn_length. lia. }
+  destruct (nth 0 raw 0 =? RID_CMD_IN).
+  - unfold parse_rx in H. destruct (parse_cmd_response (firstnN plen (skipn 4 raw))) as [r|x] eqn:P; [|discriminate].
+    injection H as <- <-. repeat split; try assumption; try lia. exists r. auto.
+  - injection H as <- <-. repeat split; try assumption; lia.
+Qed.
 
 (* ------------------------------------------------------------------ the closed loop: host against the reference bootloader *)
 Lemma firstn_app_len {A} (a b : list A) n : length a = n -> firstn n (a ++ b) = a.
@@ -1627,7 +1655,8 @@ Section Terminates2.
     unfold read_data. apply msafe_bind.
     - intros s r s' Hs H. eapply read_data_loop_safe; eauto.
     - intros dr. apply msafe_bind; [apply msafe_get|]. intros st.
-      destruct (_ && ce); [apply msafe_raise; discriminate|apply msafe_ret].
+      destruct (_ || _); [|apply msafe_ret].
+      apply msafe_bind; [apply msafe_put|]. intros _. destruct ce; [apply msafe_raise; discriminate|apply msafe_ret].
   Qed.
 
   Lemma write_chunks_safe ab : forall chunks, esafe (write_chunks SE SI ab chunks).
@@ -1640,7 +1669,7 @@ Section Terminates2.
   Proof.
     assert (G : forall all_sent v, msafe fuel
               (match v with
-               | RxData _ => mraise (XCrash K_ASSERT)
+               | RxData _ => mraise XConn
                | RxResp rs => put_status SE (r_status rs);;;
                    (if negb (r_status rs =? SC_SUCCESS) then if ce then mraise (XCmd (r_status rs)) else mret false else mret all_sent)
                end)).
@@ -1654,7 +1683,7 @@ Section Terminates2.
                       then if negb (tag =? CT_NO_COMMAND)
                            then v <- lift SE (i_read SI);;
                                 match v with
-                                | RxData _ => mraise (XCrash K_ASSERT)
+                                | RxData _ => mraise XConn
                                 | RxResp rs => put_status SE (r_status rs);;;
                                     (if negb (r_status rs =? SC_SUCCESS) then if ce then mraise (XCmd (r_status rs)) else mret false else mret all_sent)
                                 end
@@ -1666,7 +1695,7 @@ Section Terminates2.
         by (apply msafe_bind; [apply msafe_put|intros; apply msafe_raise; discriminate]).
       assert (Rd : msafe fuel (v <- lift SE (i_read SI);;
                                 match v with
-                                | RxData _ => mraise (XCrash K_ASSERT)
+                                | RxData _ => mraise XConn
                                 | RxResp rs => put_status SE (r_status rs);;;
                                     (if negb (r_status rs =? SC_SUCCESS) then if ce then mraise (XCmd (r_status rs)) else mret false else mret all_sent)
                                 end))
@@ -1800,3 +1829,84 @@ Proof.
   destruct (session _ _ _ _ _ _) as [rs s'] eqn:S. cbn [fst].
   eapply session_safe; [|exact S]. unfold avail, availe. cbn [mb_env se_in]. lia.
 Qed.
+
+(* ------------------------------------------------------------------ SUCCESS_COMPLETE: never a partial success *)
+Section Complete.
+  Variable E : Type.
+  Variable I : iface E.
+  Variable ce : bool.
+
+  (* every "command, typed response, incoming data" call, both cmd_exception settings, every protocol interface:
+     status SUCCESS after the call means the value has exactly the length the delivered response announced *)
+  Lemma success_complete_lemma fuel p cls s v s' :
+    cmd_data_in E I ce fuel p cls s = (ROk (AVBytes v), s') -> mb_status E s' = SC_SUCCESS ->
+    exists b e0 rs e1, pkt_bytes p = ROk b /\ i_write_command I b (mb_env E s) = (ROk tt, e0) /\
+      i_read I e0 = (ROk (RxResp rs), e1) /\ r_status rs = SC_SUCCESS /\ r_cls rs = cls /\ nlen v = r_second rs.
+  Proof.
+    intros H Hs. apply cmd_data_in_sound in H.
+    destruct H as (b & e0 & rs & e1 & its & e_end & rsf & s1 & Hb & Hw & Hr & Hst & Hcl & _ & _ & _ & _ & Hend & _).
+    destruct (Hend Hs) as (_ & _ & _ & _ & _ & Hn). exists b, e0, rs, e1. auto 10.
+  Qed.
+
+  Lemma read_data_complete fuel tag len s v s' :
+    read_data E I ce fuel tag len s = (ROk v, s') -> mb_status E s' = SC_SUCCESS -> nlen v = len.
+  Proof.
+    intros H Hs. apply read_data_sound in H. destruct H as (_ & its & e_end & rs & s1 & _ & Hv & _ & _ & Hc & _).
+    destruct (Hc Hs) as [_ Hl]. subst v. apply nlen_firstnN. exact Hl.
+  Qed.
+
+  Lemma block_arith ps len idx :
+    0 < ps -> let rem := len mod ps in let packets := len / ps + (if rem =? 0 then 0 else 1) in
+    idx < packets ->
+    N.min (idx * ps) len + (if (idx =? packets - 1) && negb (rem =? 0) then rem else ps) = N.min ((idx + 1) * ps) len.
+  Proof.
+    intros Hps rem packets Hi. subst rem packets.
+    pose proof (N.div_mod len ps ltac:(lia)) as Hdm. pose proof (N.mod_lt len ps ltac:(lia)) as Hr.
+    set (q := len / ps) in *. set (r := len mod ps) in *.
+    destruct (r =? 0) eqn:E0.
+    - apply N.eqb_eq in E0. rewrite andb_false_r. assert (idx + 1 <= q) by lia.
+      assert ((idx + 1) * ps <= q * ps) by nia. lia.
+    - apply N.eqb_neq in E0. rewrite andb_true_r. destruct (idx =? q + 1 - 1) eqn:EI.
+      + apply N.eqb_eq in EI. assert (idx = q) by lia. subst idx. nia.
+      + apply N.eqb_neq in EI. assert (idx + 1 <= q) by lia. assert ((idx + 1) * ps <= q * ps) by nia. lia.
+  Qed.
+
+  (* the block-wise USB-HID read_memory: status SUCCESS at the end means every block was complete *)
+  Lemma read_usb_loop_complete address mem_id ps len (Hps : 0 < ps) :
+    let rem := len mod ps in let packets := len / ps + (if rem =? 0 then 0 else 1) in
+    forall fuel idx acc s v s', idx <= packets -> nlen acc = N.min (idx * ps) len ->
+    read_usb_loop E I ce fuel address mem_id ps rem packets idx acc s = (ROk (AVBytes v), s') ->
+    mb_status E s' = SC_SUCCESS -> nlen v = len.
+  Proof.
+    intros rem packets. induction fuel as [|f IH]; intros idx acc s v s' Hi Ha H Hs; [discriminate|].
+    cbn [read_usb_loop] in H. destruct (packets <=? idx) eqn:EP.
+    - apply N.leb_le in EP. injection H as <- <-. rewrite Ha. assert (idx = packets) by lia. subst idx.
+      subst packets rem. pose proof (N.div_mod len ps ltac:(lia)) as Hdm. pose proof (N.mod_lt len ps ltac:(lia)) as Hr.
+      destruct (len mod ps =? 0) eqn:E0; [apply N.eqb_eq in E0|apply N.eqb_neq in E0]; nia.
+    - apply N.leb_gt in EP. unfold mbind at 1 in H.
+      destruct (process_cmd E I ce _ s) as [[rs|x] s1] eqn:P; [|discriminate].
+      apply process_cmd_sound in P. destruct P as (_ & Hst & _ & _).
+      unfold is_success in H. destruct (r_status rs =? SC_SUCCESS) eqn:ES.
+      + unfold mbind at 1 in H.
+        match type of H with context [read_data E I ce ?fu ?tg ?dl s1] => destruct (read_data E I ce fu tg dl s1) as [[d|x] s2] eqn:R; [|discriminate] end.
+        unfold mbind at 1, get_status in H.
+        destruct (negb (mb_status E s2 =? SC_SUCCESS)) eqn:E2.
+        * injection H as <- <-. apply negb_true_iff, N.eqb_neq in E2. contradiction.
+        * apply negb_false_iff, N.eqb_eq in E2. apply read_data_complete in R; [|exact E2].
+          eapply IH; [| |exact H|exact Hs]; [lia|].
+          rewrite nlen_app, Ha, R. apply block_arith; assumption.
+      + injection H as <- <-. apply N.eqb_neq in ES. rewrite Hst in Hs. contradiction.
+  Qed.
+
+  Lemma read_memory_usb_complete fuel address len mem_id s v s' :
+    i_usb I = true -> read_memory E I ce fuel address len mem_id false s = (ROk (AVBytes v), s') ->
+    mb_status E s' = SC_SUCCESS -> nlen v = len.
+  Proof.
+    intros Hu H Hs. unfold read_memory in H. rewrite Hu in H. cbn [andb negb] in H. unfold mbind in H.
+    destruct (get_max_packet_size E I ce s) as [[ps|x] s1]; [|discriminate].
+    destruct (ps =? 0) eqn:E0; [discriminate|]. apply N.eqb_neq in E0.
+    eapply (read_usb_loop_complete address (clamp_down_memory_id mem_id) ps len ltac:(lia)); [| |exact H|exact Hs].
+    - lia.
+    - reflexivity.
+  Qed.
+End Complete.
